@@ -306,7 +306,7 @@ func (a *IPAllocator) Stats() (allocated, total uint64, utilization float64) {
 	defer a.mu.RUnlock()
 
 	alloc := a.allocatedCount.Uint64()
-	tot := a.totalPrefixes.Uint64()
+	tot := a.totalU64()
 
 	var util float64
 	if tot > 0 {
@@ -352,7 +352,7 @@ func (a *IPAllocator) BaseNetwork() *net.IPNet {
 
 // findFreeIndex finds the first unallocated prefix index.
 func (a *IPAllocator) findFreeIndex() (uint64, error) {
-	total := a.totalPrefixes.Uint64()
+	total := a.totalU64()
 
 	// Start from hint
 	start := a.nextFree.Uint64()
@@ -377,10 +377,20 @@ func (a *IPAllocator) findFreeIndex() (uint64, error) {
 	return 0, ErrPoolExhausted
 }
 
+// totalU64 returns the number of allocatable prefixes as a uint64. Pools with
+// 2^64 or more prefixes (e.g. a /64 handing out /128 addresses) saturate at
+// MaxUint64 instead of wrapping to zero, which made them report "exhausted".
+func (a *IPAllocator) totalU64() uint64 {
+	if !a.totalPrefixes.IsUint64() {
+		return ^uint64(0)
+	}
+	return a.totalPrefixes.Uint64()
+}
+
 // getPrefixByIndex calculates the prefix for a given index.
 func (a *IPAllocator) getPrefixByIndex(index uint64) *net.IPNet {
 	// Calculate offset: index * step
-	offset := new(big.Int).Mul(big.NewInt(int64(index)), a.step)
+	offset := new(big.Int).Mul(new(big.Int).SetUint64(index), a.step)
 
 	// Add offset to base IP
 	ip := addIPOffset(a.baseIP, offset)
@@ -416,8 +426,9 @@ func (a *IPAllocator) getIndexByPrefix(prefix *net.IPNet) (uint64, error) {
 	// Calculate index: offset / step
 	index := new(big.Int).Div(offset, a.step)
 
-	// Verify within bounds
-	if index.Cmp(a.totalPrefixes) >= 0 {
+	// Verify within bounds (indexes are tracked as uint64: of a pool with 2^64 or
+	// more prefixes only the first 2^64-1 are allocatable)
+	if index.Cmp(a.totalPrefixes) >= 0 || !index.IsUint64() || index.Uint64() >= a.totalU64() {
 		return 0, fmt.Errorf("%w: prefix %s is beyond pool end", ErrOutOfRange, prefix)
 	}
 
